@@ -416,13 +416,12 @@ func (l *lexer) scanNumber(ch rune, seenDot bool) (rune, rune) {
 
 		if ch == '.' {
 			// May be numeric, though prefixes are integer-only.
-			if prefix != 0 && prefix != '0' {
-				// Digits found, 0x, 0o, or 0b integer looks valid, halt.
-				return tok, '.'
+			if prefix == 0 || prefix == '0' {
+				ch = l.next()
+				seenDot = true
 			}
-
-			ch = l.next()
-			seenDot = true
+			// Otherwise digits found, 0x, 0o, or 0b integer looks valid:
+			// leave the dot to the next token and validate the integer below.
 		}
 	}
 
